@@ -531,6 +531,17 @@ def gen_multi_case(rng, n=None):
     n = n or rng.choice([2, 2, 3])
     parts = [gen_transfer_case(rng, simple_cfg=True, bs_choices=[8, 16, 512], handler_kind="stream") for _ in range(n)]
     first = parts[0]
+    if rng.random() < 0.25:
+        # the SAME request again (same client, same bytes) while or after the first one is served: it is a request of
+        # its own and is dispatched and answered like the first
+        handlers = [{"accept": ["f0"], "result": first["handlers"][0]["result"]}]
+        dg = bytes.fromhex(first["datagram"])
+        fields = dg[2:].split(b"\0")
+        fields[0] = b"f0"
+        dgx = (b"\x00\x01" + b"\0".join(fields)).hex()
+        return {"cfg": first["cfg"], "datagram": dgx, "handlers": handlers, "script": first["script"],
+                "more": [{"datagram": dgx, "script": p["script"] if rng.random() < 0.5 else first["script"]} for p in parts[1:]],
+                "_meta": {"style": "multi-same", "handler": "stream"}}
     # one server configuration and one handler list: handler i accepts only file name "f<i>"
     handlers = []
     for i, p in enumerate(parts):
